@@ -4,24 +4,12 @@
 PLAN = {
     "C01": [("A", 12000, 1500000, {})],
     "C02": [("A", 12000, 1500000, {})],
-    "C03": [("B", 1500, 120000, {})],
     "C04": [("A", 12000, 1500000, {})],
     "C05": [("A", 10000, 1000000, {})],
-    "C06": [("A", 12000, 1500000, {}), ("B", 600, 60000, {})],
+    "C06": [("A", 12000, 1500000, {})],
     "C07": [("A", 6000, 600000, {})],
-    "C08": [("B", 1200, 100000, {})],
-    "C09": [("B", 1500, 120000, {})],
-    "C10": [("B", 1500, 120000, {})],
     "C11": [("A", 8000, 800000, {})],
-    "C12": [("BELT", 6000, 600000, {}), ("B", 300, 30000, {})],
-    "C13": [("BELT", 6000, 600000, {})],
-    "C14": [("FLEET", 6000, 500000, {})],
-    "C15": [("B", 1200, 100000, {})],
-    "C16": [("B", 1000, 80000, {})],
-    "C17": [("B", 1200, 100000, {})],
-    "C18": [("A", 6000, 500000, {}), ("B", 1000, 80000, {})],
-    "C19": [("B", 200, 20000, {"c19": True})],
-    "C20": [("B", 2000, 150000, {}), ("A", 2000, 100000, {"kinds": ["fls", "flt", "cconv", "sconv"]})],
+    "C18": [("A", 6000, 500000, {})],
 }
 
 THOROUGH_BUDGET_S = 900
